@@ -52,6 +52,12 @@ def run(ctx):
                       "(EXP_BODY), the first and the last element of its sequence cannot match the empty string (EOI "
                       "alone must not close an `if` / `for` / `while`: an unbalanced script would be accepted and its tail "
                       "swallowed by the open block)")
+    ctx.rule("R14-8", "the grammar accepts exactly the scripts whose block keywords balance: the top rule, evaluated as data "
+                      "by a PEG interpreter with pest's implicit-whitespace rewriting, agrees with a reference recogniser "
+                      "(stmt = cmd | if body (else-if body)* (else body)? fi | for body done | while body done, body = "
+                      "stmt+) on every sequence of up to 4 lines (thorough: 5) drawn from {if, else if, else, fi, for, "
+                      "while, done, command}, in four layouts (plain, `; then` / `; do` spelling, every line indented, no "
+                      "final newline)")
     ctx.rule("R14-4", "run_exp_if leaves at the first passed branch; a body runs only under test_pass; `while` calls its "
                       "head test on every iteration; `for` calls set_env(var, value) before each body run, iterating forward")
     gpath = os.path.join(ctx.root, "src", "parsers", "grammar.pest")
@@ -60,6 +66,7 @@ def run(ctx):
     except Exception as e:  # fail closed
         ctx.require(False, "R14-1", "R14-1|grammar", "cannot read the script grammar: %s" % str(e)[:200])
         return
+    balance_rule(ctx, g)
     for crate in ctx.crates:
         anchor_rule(ctx, crate, g)
         table_rule(ctx, crate, g)
@@ -325,3 +332,109 @@ def flags_used_rule(ctx, crate):
                                                    "reach the enclosing loop" % ("/".join(missing), "/".join(missing)))
             k += 1
     ctx.floor("R14-5", crate, "nested block-runner calls", n, 5)
+
+
+LINES = ["if t", "else if t", "else", "fi", "for x in a", "while t", "done", "echo"]
+IF, ELIF, ELSE, FI, FOR, WHILE, DONE, CMD = range(8)
+
+
+def _balanced(seq):
+    """reference recogniser; returns True iff the whole sequence is a list of statements"""
+    n = len(seq)
+
+    def stmts(i, at_least_one):
+        """parse stmt* from i; returns the set of positions reachable"""
+        out = set() if at_least_one else {i}
+        front = {i}
+        seen = set()
+        while front:
+            j = front.pop()
+            if j in seen:
+                continue
+            seen.add(j)
+            for k in stmt(j):
+                out.add(k)
+                front.add(k)
+        return out
+
+    def stmt(i):
+        res = set()
+        if i >= n:
+            return res
+        t = seq[i]
+        if t == CMD:
+            res.add(i + 1)
+        elif t in (FOR, WHILE):
+            for j in stmts(i + 1, True):
+                if j < n and seq[j] == DONE:
+                    res.add(j + 1)
+        elif t == IF:
+            cur = stmts(i + 1, True)
+            # (else-if body)*
+            closed = set()
+            work = set(cur)
+            seen = set()
+            while work:
+                j = work.pop()
+                if j in seen:
+                    continue
+                seen.add(j)
+                if j < n and seq[j] == ELIF:
+                    for k in stmts(j + 1, True):
+                        work.add(k)
+                if j < n and seq[j] == ELSE:
+                    for k in stmts(j + 1, True):
+                        if k < n and seq[k] == FI:
+                            closed.add(k + 1)
+                if j < n and seq[j] == FI:
+                    closed.add(j + 1)
+            res |= closed
+        return res
+    return n in stmts(0, False)
+
+
+def _render(seq, layout):
+    lines = []
+    for t in seq:
+        l = LINES[t]
+        if layout == "then-do":
+            if t in (IF, ELIF):
+                l += "; then"
+            elif t in (FOR, WHILE):
+                l += "; do"
+        if layout == "indented":
+            l = "  " + l
+        lines.append(l)
+    text = "\n".join(lines) + "\n"
+    if layout == "no-final-newline":
+        text = text[:-1]
+    return text
+
+
+def balance_rule(ctx, g):
+    import itertools
+    top = "EXP"
+    if not ctx.require(top in g.rules, "R14-8", "R14-8|grammar|top", "grammar has no rule EXP"):
+        return
+    maxlen = 5 if ctx.tier == "thorough" else 4
+    n = 0
+    bad = []
+    for ln in range(1, maxlen + 1):
+        for seq in itertools.product(range(8), repeat=ln):
+            want = _balanced(seq)
+            for layout in ("plain", "then-do", "indented", "no-final-newline"):
+                if layout == "no-final-newline" and seq[-1] in (IF, ELIF, ELSE, FOR, WHILE):
+                    continue      # a head line needs its newline; not part of the comparison
+                got = g.accepts(top, _render(seq, layout))
+                n += 1
+                if got != want and len(bad) < 6:
+                    bad.append((seq, layout, want, got))
+    ctx.paths_enumerated += n
+    ok = not bad
+    detail = None
+    if bad:
+        seq, layout, want, got = bad[0]
+        detail = "layout %s, script %r: the grammar %s it, a balanced-structure reading %s" % (
+            layout, _render(seq, layout), "accepts" if got else "rejects", "accepts" if want else "rejects")
+    ctx.ob("R14-8", "parsers::grammar", "grammar and reference recogniser agree on %d scripts (<= %d lines, 4 layouts)" % (n, maxlen),
+           ok, key="R14-8|grammar|balance-agreement", detail=detail)
